@@ -62,8 +62,14 @@ var errEOFReadHeader = errs.NewPublic("error when reading request headers: EOF")
 // Write writes request header to w.
 func WriteHeader(h *protocol.RequestHeader, w network.Writer) error {
 	header := h.Header()
-	_, err := w.WriteBinary(header)
-	return err
+	// copied, not referenced: see resp.WriteHeader (the request's body stream is read
+	// between this write and the flush)
+	buf, err := w.Malloc(len(header))
+	if err != nil {
+		return err
+	}
+	copy(buf, header)
+	return nil
 }
 
 func ReadHeader(h *protocol.RequestHeader, r network.Reader) error {
